@@ -7,6 +7,7 @@ package container
 // constants the Coq model imports.
 
 import (
+	"github.com/panjf2000/ants/v2"
 	"sort"
 	"time"
 
@@ -62,4 +63,15 @@ func (cp *Processor) VerifDrain() {
 		time.Sleep(20 * time.Microsecond)
 	}
 	<-done
+}
+
+// VerifBlockingPool replaces the non-blocking worker pool (which drops a task when its only worker
+// has not yet been returned to the idle list) by a blocking one of size 1, so that a submitted
+// task is never lost between two harness cases.
+func (cp *Processor) VerifBlockingPool() {
+	p, err := ants.NewPool(1)
+	if err != nil {
+		panic(err)
+	}
+	cp.pool = p
 }
